@@ -452,6 +452,7 @@ func (an *aimAnalysis) isStoreField(name string) bool {
 }
 
 func runC07(r *Run) {
+	checkWithStateInPlace(r, "C07.withstate")
 	p := r.P
 	appPkg := p.AllPkgs[Mod+"/app"]
 	co := appPkg.Types.Scope().Lookup("context")
